@@ -171,6 +171,16 @@ impl IotaDID {
       .and_then(|_| Self::check_network(did))
   }
 
+  /// Checks that the given `DID` is valid according to the [`IotaDID`] method specification and written in the
+  /// normal form an [`IotaDID`] is kept in (lowercase, default network omitted), so that it can be viewed as an
+  /// [`IotaDID`] as it is.
+  pub(crate) fn check_normalized(did: &CoreDID) -> Result<()> {
+    Self::check_validity(did)?;
+    (&Self::normalize(did.clone()) == did)
+      .then_some(())
+      .ok_or(DIDError::InvalidMethodId)
+  }
+
   /// Returns a `bool` indicating if the given `DID` is valid according to the
   /// [`IotaDID`] method specification.
   ///
